@@ -35,6 +35,17 @@ STRENGTHENED = {
  "C12-m19": "missed at first: the default close probability 1/(n+1) was only measured for n <= 31 instructions; it is now also measured for instruction sets of 200000 and 2^20-1 instructions (16e6 genes each in the quick tier, enough to tell 1/2^20 from 1/65535)",
  "C13-m20": "missed at first: weights of the dynamic list were taken from the same 32-bit multisets as the static chains although it accepts usize weights; proportionality is now also measured with weights beyond 2^32 (3*2^32 : 2^32, 2^40 : 2^31, usize::MAX/2 : usize::MAX/4 : 1, ...)",
  "C12-m21": "missed at first: flip rates were 0, 0.01 ... 1; rates at the small end of the range (1e-3 down to 2^-24, 2^-25, 1e-9, 1e-20 and f32::MIN_POSITIVE) are now measured too - a rate that small means practically never, and a sampler that computes with 1 - rate in f32 turns it into always",
+ "C06-m24": "missed at first: every individual in C06's populations carried a unique id, so no two compared equal; populations of plain values with many ties (all equal, two values, ...) are now selected from with every tournament size - a selector that waits for k distinct values never returns and is reported by the hang watchdog with the population as context",
+ "C08-m24": "missed at first: at most 34 cases; lexicase now also runs over 1000, 50000 and 300000 cases with identical individuals that stay tied through all of them (a filter that recurses per case exhausts the stack; reported as C08/aborted by the supervising parent)",
+ "C09-m24": "missed at first (the check ended INCONCLUSIVE, exit 3): a lock held across the child maker deadlocks as soon as the operator re-enters the pool, which burns no CPU for the hang watchdog to see; C09 now has child makers that re-enter the rayon pool and a stall detector (a step in progress, no step event and < 1 CPU-second in 120 s)",
+ "C10-m24": "missed at first: ranges passed to crossover_segment ended at most two past the genomes; ranges of astronomic length (0..usize::MAX, 2..2^40, ...) are now passed too - refused as errors, never sized after",
+ "C11-m24": "missed at first: UMAD parents had at most 4097 genes; a million-gene parent is now mutated at deletion rates 1 and 0.999999 (long runs in which nothing survives), addition 1 / deletion 1, addition 1 / deletion 0 and a middle setting",
+ "C12-m24": "missed at first: WithRate was measured on at most 1000 genes; 4- and 6-million-gene genomes are now flipped at rates 0.5, 1 and 0.01 (aggregated) - a mutation whose cost grows with the square of the length does not complete one evaluation within the hang budget",
+ "C14-m24": "missed at first: mapped vectors had at most 100 elements; vectors of 200000 and a million elements are now mapped (with and without a failing element): every element in order, one draw each, stop at the first failure",
+ "C15-m24": "missed at first: result collections were built from exact-size sources only; they are now also collected from take_while / map_while / scan over astronomically long ranges, filter and chains - the total is the sum of what is actually yielded",
+ "C17-m23": "missed at first, as a harness build failure: the erased selector impls gained a bound on the error type that the harness's own error type does not satisfy; the compile-time flavour probe now also instantiates every (trait x pointer x auto-trait) flavour with a user-defined error type (280 functions) and reports a rejected one as C17/flavour-not-supported before the harness is built",
+ "C18-m24": "missed at first: collection elements always carried data; collections of zero-sized elements (unit, a marker struct) must now have exactly the requested length with the generator asked exactly that often (a fill loop steered by capacity never ends for them)",
+ "C19-m23": "missed at first: the overflow error of an over-long program was only looked at for programs given as PushProgram values; the same program is now also given as PushInstruction and IntInstruction values and all three must report the same error",
  "C15-m10": "missed at first: copies were never made through clone_from; EcIndividual and TestResults are now also copied with clone_from and Vec::clone_from (overwriting existing elements) and must equal their source",
  "C16-m9": "missed at first, as a harness build failure: the change adds Send + Sync bounds to Map's Vec impl, which C14's Rc-based probes do not satisfy, and all ec monitors lived in one binary. Every property now has its own binary, and C16's registry maps an operator over vectors of up to 2049 genomes",
  "C17-m10": "missed at first: the member errors used behind DynWeighted had no cause chain; a member whose error has a two-level source chain is now used and the whole chain must be reachable through source() from what the list reports",
